@@ -323,6 +323,20 @@ class C01(QueryFamily):
         c['form'] = 'entity' if rng.random() < 0.8 else 'set_of'
         if not c['sel']:
             c['sel'] = [['var', 1]]
+        if rng.random() < 0.08:
+            # several METHOD CALLS with equal (empty) argument lists on different receivers reached from the one object: x.big(),
+            # x.peer.big(), x.peer.peer.big() - each call is its own call, whatever the other calls returned for this row
+            F = gen_query.F
+            recv = [['var', 1], ['map', ['f', F['peer']], ['var', 1]], ['map', ['f', F['peer']], ['map', ['f', F['peer']], ['var', 1]]]]
+            calls = [['truth', ['map', ['f', F['big()']], r]] for r in rng.sample(recv, rng.choice([2, 2, 3]))]
+            calls = [['not', k, 'fn'] if rng.random() < 0.4 else k for k in calls]
+            cond = calls[0]
+            for k in calls[1:]:
+                cond = [rng.choice(['and', 'or']), cond, k, rng.choice(['fn', 'op'])]
+            for o in c['heap']:
+                o[0] = rng.randint(0, 3)
+                o[8] = o[0] >= 2
+            c['cond'] = cond
         return c
 
 
@@ -425,9 +439,12 @@ class C19(QueryFamily):
             k0, k1 = rng.sample(keys, 2)
             flag = ['map', ['f', gen_query.F[rng.choice(['f', 'f', 'a', 'n', 's'])]], ['var', k0]]
             other = ['cmp', rng.choice(['>', '<=', '==', '!=']), ['map', ['f', gen_query.F[rng.choice('ab')]], ['var', k1]], ['lit', rng.randint(0, 2)]]
-            shape = rng.randrange(4)
+            shape = rng.randrange(6)
+            # (shapes 4, 5: the object is first an OPERAND - a value - and then, already bound, a condition)
+            asval = ['cmp', rng.choice(['==', '!=']), flag, ['lit', rng.choice([0, '', None, False, 1])]]
             c['cond'] = (['or', ['truth', flag], other, 'fn'], ['or', other, ['truth', flag], 'fn'], ['and', ['truth', flag], other, 'fn'],
-                         ['or', ['and', ['truth', flag], other, 'fn'], ['cmp', '==', ['map', ['f', gen_query.F['b']], ['var', k1]], ['lit', 0]], 'fn'])[shape]
+                         ['or', ['and', ['truth', flag], other, 'fn'], ['cmp', '==', ['map', ['f', gen_query.F['b']], ['var', k1]], ['lit', 0]], 'fn'],
+                         ['and', asval, ['truth', flag], 'fn'], ['and', other, ['or', asval, ['truth', flag], 'fn'], 'fn'])[shape]
             c['sel'] = [['var', k0], ['var', k1], flag]
             rng.shuffle(c['sel'])
             c['binders'] = [['var', k] for k in keys]
@@ -819,6 +836,13 @@ class C11(QueryFamily):
         c['head_style'] = rng.choice(['kw', 'kw', 'pos', 'mixed'])
         if c['head_style'] == 'kw' and rng.random() < 0.3:
             c['falsy_head'] = True            # the constructed class has __len__ == 0: its instances are falsy objects
+        elif c['head_style'] == 'kw' and rng.random() < 0.4:
+            c['unset_head'] = True            # the fields of the constructed class default to 'unset': a None argument is a value
+            lits = [j for j, t in enumerate(c['sel']) if t[0] == 'lit']
+            if lits and rng.random() < 0.7:
+                c['sel'][rng.choice(lits)] = ['lit', None]
+            elif len(c['sel']) < 4 and rng.random() < 0.7:
+                c['sel'].insert(rng.randrange(len(c['sel']) + 1), ['lit', None])
         return c
 
     def within_hypotheses(self, case):
